@@ -221,9 +221,30 @@ func morePairs() []*pair {
 				"MChello.tla": "---- MODULE MChello ----\nEXTENDS hello\nMCMkHello(a, b) == a \\o b\n====\n"}),
 			Cfg: dflt + "CONSTANT MK_HELLO <- MCMkHello\nSPECIFICATION Spec\n",
 			Sys: gotests.Hello, ScalarArch: map[string]bool{"AHello": true}},
-		// bug_119 (procedure `inc`, `process (Server = "1")`): not comparable - the installed pcal leaves `self`
-		// unsubstituted in the call argument of a single-process `call inc0(self)`, so SANY rejects the
-		// translation of bug_119.tla.expectpcal ("Unknown operator: self"); call/return is covered by C04.
+		// bug_119 (procedure `inc`, `process (Server = "1")`): the installed pcal leaves `self` unsubstituted
+		// in the call argument of a single-process `call inc0(self)` (SANY: "Unknown operator: self");
+		// Prepare writes the process identifier there, which is what `self` denotes.  Only the procedure's
+		// parameter variable self_ and the stack hold that value and neither is compared (no comparable
+		// Go image; call/return is C04's): pc, value and out are.
+		&pair{Name: "gotests-bug_119", SpecDir: gen, Module: "test", Quick: true,
+			Prepare: func(dir string) (string, error) {
+				if _, err := retranslate(gen+"bug_119.tla.expectpcal", "test", "", nil)(dir); err != nil {
+					return "", err
+				}
+				f := filepath.Join(dir, "test.tla")
+				b, err := os.ReadFile(f)
+				if err != nil {
+					return "", err
+				}
+				const bad, good = `self_' = [self_ EXCEPT !["1"] = self]`, `self_' = [self_ EXCEPT !["1"] = "1"]`
+				if strings.Count(string(b), bad) != 1 {
+					return "", fmt.Errorf("bug_119: the translation no longer has the unsubstituted `self` this step repairs")
+				}
+				return "", os.WriteFile(f, []byte(strings.Replace(string(b), bad, good, 1)), 0o644)
+			},
+			Cfg: dflt + "SPECIFICATION Spec\n",
+			Sys: gotests.Bug119, ScalarArch: map[string]bool{"Counter": true},
+			Rename: map[string]string{"inc.self_": "-", "inc.counter": "-"}, SkipSpecVars: []string{"stack", "self_"}},
 		&pair{Name: "gotests-bug2_124", SpecDir: gen, Module: "bug2", Quick: false,
 			Prepare: retranslate(gen+"bug2_124.tla.expectpcal", "bug2", "", nil),
 			Cfg:     dflt + "CONSTANT NUM_NODES = 2\nCONSTANT BUFFER_SIZE = 1\nSPECIFICATION Spec\n",
